@@ -17,6 +17,8 @@ use watchexec_events::{
 
 use crate::engine::{Engine, LegOpts, Outcome};
 
+const OPTS: [&str; 8] = ["none", "--ignore", "--ignore-file", "--filter", "--filter-file", "--exts", "--fs-events", "--ignore(negated)"];
+
 const FLAGS: &[&str] = &[
 	"--no-vcs-ignore",
 	"--no-project-ignore",
@@ -65,6 +67,8 @@ fn home() -> &'static PathBuf {
 
 struct Project {
 	_tmp: tempfile::TempDir,
+	/// a second watched directory next to (outside) the project origin
+	shared: PathBuf,
 	origin: PathBuf,
 	nested: PathBuf,
 	ignore_file: PathBuf,
@@ -94,8 +98,11 @@ fn project(c: &C12Case) -> Project {
 	std::fs::write(&ignore_file, format!("explf-only.{n}\n")).unwrap();
 	let filter_file = extra.join("my.filter");
 	std::fs::write(&filter_file, "# comment\n\nfiltf-*\n").unwrap();
+	let shared = origin.parent().unwrap().join("shared");
+	std::fs::create_dir_all(&shared).unwrap();
 	Project {
 		_tmp: tmp,
+		shared,
 		origin,
 		nested,
 		ignore_file,
@@ -116,6 +123,8 @@ fn argv(c: &C12Case, p: &Project, flags: u8, option: u8) -> Vec<OsString> {
 	v.push(p.origin.clone().into());
 	v.push("-w".into());
 	v.push(p.origin.clone().into());
+	v.push("-w".into());
+	v.push(p.shared.clone().into());
 	let file_arg = |f: &Path| -> OsString {
 		if c.relative_file_arg {
 			f.strip_prefix(&p.origin).unwrap().as_os_str().to_owned()
@@ -149,6 +158,11 @@ fn argv(c: &C12Case, p: &Project, flags: u8, option: u8) -> Vec<OsString> {
 		6 => {
 			v.push("--fs-events".into());
 			v.push("create".into());
+		}
+		7 => {
+			// an explicit negated ignore that overlaps a built-in default: "do not ignore *.pyc"
+			v.push("--ignore".into());
+			v.push("!*.pyc".into());
 		}
 		_ => {}
 	}
@@ -222,9 +236,9 @@ pub fn run(c: &C12Case) -> Outcome {
 	let rt = tokio::runtime::Builder::new_current_thread().enable_all().build().unwrap();
 	let p = project(c);
 	let flags = c.flags % 64;
-	let option = c.option % 7;
+	let option = c.option % 8;
 	o.nontrivial = flags != 0 && option != 0;
-	o.label(format!("option:{}", ["none", "--ignore", "--ignore-file", "--filter", "--filter-file", "--exts", "--fs-events"][option as usize]));
+	o.label(format!("option:{}", OPTS[option as usize]));
 	let modify = FileEventKind::Modify(ModifyKind::Data(DataChange::Content));
 	let create = FileEventKind::Create(CreateKind::File);
 	let n = c.suffix;
@@ -236,8 +250,27 @@ pub fn run(c: &C12Case) -> Outcome {
 		4 => vec![("path matched by the --filter-file", ev(p.origin.join("filtf-a.txt"), false, modify), Some(true)), ("path not matched by the --filter-file", ev(p.origin.join("plain.txt"), false, modify), Some(false))],
 		5 => vec![("file with the extension", ev(p.origin.join("a.rs"), false, modify), Some(true)), ("file without the extension", ev(p.origin.join("plain.txt"), false, modify), Some(false))],
 		6 => vec![("create event", ev(p.origin.join("plain.txt"), false, create), Some(true)), ("modify event (not in --fs-events)", ev(p.origin.join("plain.txt"), false, modify), Some(false))],
+		7 => vec![("path re-included by the negated --ignore", ev(p.origin.join("x.pyc"), false, modify), Some(true)), ("unrelated path", ev(p.origin.join("plain.txt"), false, modify), Some(true))],
 		_ => vec![("unrelated path", ev(p.origin.join("plain.txt"), false, modify), Some(true))],
 	};
+	// the same probes under the second watched directory, which lies outside the project origin: what the
+	// option means there is not asserted, only that the discovery flags do not change it
+	let mut explicit = explicit;
+	let outside: Vec<(&str, Event, Option<bool>)> = explicit
+		.iter()
+		.map(|(_, e, _)| {
+			let mut e2 = e.clone();
+			for t in &mut e2.tags {
+				if let Tag::Path { path, .. } = t {
+					if let Ok(rel) = path.strip_prefix(&p.origin) {
+						*path = p.shared.join(rel);
+					}
+				}
+			}
+			("the same probe under a watched directory outside the origin", e2, None)
+		})
+		.collect();
+	explicit.extend(outside);
 	let sources = source_probes(c, &p);
 	let mut events: Vec<Event> = explicit.iter().map(|e| e.1.clone()).collect();
 	// source probes use a kind that --fs-events create lets through
@@ -259,7 +292,7 @@ pub fn run(c: &C12Case) -> Outcome {
 		}
 	};
 	let flag_names: Vec<&str> = FLAGS.iter().enumerate().filter(|(i, _)| flags >> i & 1 == 1).map(|(_, f)| *f).collect();
-	let opt_name = ["none", "--ignore", "--ignore-file", "--filter", "--filter-file", "--exts", "--fs-events"][option as usize];
+	let opt_name = OPTS[option as usize];
 	// explicit options behave the same whatever the discovery flags
 	for (i, (what, _, expect)) in explicit.iter().enumerate() {
 		if with_flags[i] != without_flags[i] {
@@ -279,6 +312,9 @@ pub fn run(c: &C12Case) -> Outcome {
 	// each flag removes exactly the sources it names — asserted when no positive filter would reject the probes anyway
 	if !matches!(option, 3 | 4 | 5) {
 		for (k, (what, path, source)) in sources.iter().enumerate() {
+			if option == 7 && what.contains("*.pyc") {
+				continue; // re-included by the explicit negation whatever the flags
+			}
 			let got_rejected = !with_flags[explicit.len() + k];
 			let want_rejected = !removed(flags, *source);
 			if got_rejected != want_rejected {
@@ -306,9 +342,9 @@ fn run_e2e(c: &C12Case) -> Outcome {
 	let h = home().clone();
 	let p = project(c);
 	let flags = c.flags % 64;
-	let option = c.option % 7;
+	let option = c.option % 8;
 	o.nontrivial = flags != 0 && option != 0;
-	let opt_name = ["none", "--ignore", "--ignore-file", "--filter", "--filter-file", "--exts", "--fs-events"][option as usize];
+	let opt_name = OPTS[option as usize];
 	o.label(format!("option:{opt_name}"));
 	let n = c.suffix;
 	// a file that exists before the watcher starts, for the modify probe of --fs-events
@@ -319,8 +355,19 @@ fn run_e2e(c: &C12Case) -> Outcome {
 	av.remove(0);
 	av.push("--only-emit-events".into());
 	av.push("--emit-events-to=stdio".into());
-	let mut child = match std::process::Command::new(super::c18::wx_path())
-		.args(&av)
+	// the explicit ignore / filter file may equally be named through the environment
+	let mut env_file: Option<(&str, std::ffi::OsString)> = None;
+	if matches!(option, 2 | 4) && c.suffix % 2 == 0 {
+		let flag = if option == 2 { "--ignore-file" } else { "--filter-file" };
+		if let Some(i) = av.iter().position(|a| a == flag) {
+			let file = av.remove(i + 1);
+			av.remove(i);
+			env_file = Some((if option == 2 { "WATCHEXEC_IGNORE_FILES" } else { "WATCHEXEC_FILTER_FILES" }, file));
+			o.label("explicit-file-via-environment");
+		}
+	}
+	let mut cmd = std::process::Command::new(super::c18::wx_path());
+	cmd.args(&av)
 		.current_dir(&p.origin)
 		.env("HOME", &h)
 		.env("XDG_CONFIG_HOME", h.join("xdg"))
@@ -328,7 +375,11 @@ fn run_e2e(c: &C12Case) -> Outcome {
 		.env_remove("WATCHEXEC_IGNORE_FILES")
 		.env_remove("WATCHEXEC_FILTER_FILES")
 		.env_remove("GIT_CONFIG_GLOBAL")
-		.env_remove("RUST_LOG")
+		.env_remove("RUST_LOG");
+	if let Some((k, v)) = &env_file {
+		cmd.env(k, v);
+	}
+	let mut child = match cmd
 		.stdin(std::process::Stdio::null())
 		.stdout(std::process::Stdio::piped())
 		.stderr(std::process::Stdio::piped())
@@ -416,11 +467,15 @@ fn run_e2e(c: &C12Case) -> Outcome {
 		4 => probes.push(("path not matched by the --filter-file".into(), p.origin.join("plain.txt"), false, true)),
 		5 => probes.push(("file without the extension".into(), p.origin.join("plain.txt"), false, true)),
 		6 => probes.push(("modify event (not in --fs-events)".into(), pre.clone(), false, false)),
+		7 => probes.push(("path re-included by the negated --ignore".into(), p.origin.join("reincluded.pyc"), true, true)),
 		_ => {}
 	}
 	probes.push(("file passing the explicit option".into(), passing("probe-pass"), true, true));
 	if !matches!(option, 3 | 4 | 5) {
 		for (what, path, source) in source_probes(c, &p) {
+			if option == 7 && what.contains("*.pyc") {
+				continue;
+			}
 			probes.push((what.to_string(), path, removed(flags, source), true));
 		}
 	}
@@ -465,7 +520,7 @@ fn run_e2e(c: &C12Case) -> Outcome {
 }
 
 fn e2e_strategy() -> BoxedStrategy<C12Case> {
-	(0u8..64, 0u8..7, 0u16..50, 0u8..3, any::<bool>(), any::<bool>())
+	(0u8..64, 0u8..8, 0u16..50, 0u8..3, any::<bool>(), any::<bool>())
 		.prop_map(|(flags, option, k, nested_depth, relative_file_arg, with_info_exclude)| C12Case {
 			flags,
 			option,
@@ -480,7 +535,7 @@ fn e2e_strategy() -> BoxedStrategy<C12Case> {
 fn all_cases(projects: u16) -> Vec<C12Case> {
 	let mut v = Vec::new();
 	for flags in 0..64u8 {
-		for option in 0..7u8 {
+		for option in 0..8u8 {
 			for k in 0..projects {
 				v.push(C12Case {
 					flags,
@@ -502,7 +557,7 @@ pub fn check(e: &Engine) {
 	e.assume("source-removal table transcribed from the flag docs; for --filter / --filter-file / --exts only the invariance of the explicit probes is asserted (a positive filter rejects the source probes anyway)");
 	e.enumerate(
 		"flag-matrix",
-		"all 64 combinations of the six ignore-source flags x 7 explicit options x generated projects (VCS dir, .gitignore, .ignore, nested .gitignore, .git/info/exclude, global git ignore, global watchexec ignore, paths hit only by the built-in defaults); one probe per source plus probes for the explicit option; non-trivial = flag set non-empty and an explicit option given",
+		"all 64 combinations of the six ignore-source flags x 8 explicit options (none, --ignore, --ignore-file, --filter, --filter-file, --exts, --fs-events, and a negated --ignore that overlaps a built-in default) x generated projects (VCS dir, .gitignore, .ignore, nested .gitignore, .git/info/exclude, global git ignore, global watchexec ignore, paths hit only by the built-in defaults); one probe per source plus probes for the explicit option, inside the origin and under a second watched directory outside it; non-trivial = flag set non-empty and an explicit option given",
 		true,
 		all_cases(e.tier.pick(3, 40)),
 		&run,
